@@ -147,7 +147,7 @@ func genC36(rng *kernel.RNG, idx int, tier string) *kernel.Plan {
 		return 0
 	}
 	submit := func() {
-		S("submit", r(10), r(16), r(16), r(16), 1+r(2))
+		S("submit", r(15), r(16), r(16), r(16), 1+r(2))
 	}
 	steps := rng.Range(18, 40)
 	if tier == "thorough" {
@@ -479,7 +479,63 @@ func (c *c36) submit(st kernel.Step) bool {
 		c.outsiders++
 		single("outsider", h.S.W.Account(fmt.Sprintf("outsider%d", c.outsiders)))
 	}
-	switch a(0) % 10 {
+	degen := "" // degenerate signer sets: no signing address can be derived, or one that is nobody's
+	switch a(0) % 15 {
+	case 10, 11:
+		// no signature entry at all (a legal wire shape: the genesis transactions look like this)
+		tx = chain.Rewire(tx)
+		degen, desc = "zero_signature", " <no signatures>"
+	case 12:
+		// one signature entry with no public key and no signature (Sig.Serialize refuses to write
+		// it, the decoder accepts it): hand-made wire bytes
+		sink := common.NewZeroCopySink(nil)
+		if err := tx.SerializeUnsigned(sink); err != nil {
+			panic(err)
+		}
+		sink.WriteVarUint(1)
+		sink.WriteUint16(0)
+		sink.WriteUint16(0)
+		sink.WriteUint16(uint16(a(1) % 2))
+		t2, err := types.TransactionFromRawBytes(sink.Bytes())
+		if err != nil {
+			panic(fmt.Sprintf("empty-pubkeys entry does not decode: %v", err))
+		}
+		tx = t2
+		degen, desc = "empty_pubkeys_entry", fmt.Sprintf(" <entry without public keys, M=%d>", a(1)%2)
+	case 13:
+		// the public keys of permitted parties (a validator and a user) listed under an impossible
+		// threshold (0 or > n): no address can be derived from the entry
+		m := uint16(0)
+		if a(2)%2 == 1 {
+			m = 3
+		}
+		tx.Sigs = append(tx.Sigs, types.Sig{PubKeys: []keypair.PublicKey{h.Validators()[0].PublicKey, h.S.User(a(1)).PublicKey}, M: m})
+		tx = chain.Rewire(tx)
+		degen, desc = "invalid_multisig_threshold", fmt.Sprintf(" <validator+user%d keys, M=%d of 2>", a(1)%5, m)
+	case 14:
+		// well-formed multi-signature entries whose derived address is nobody's
+		vals := h.Validators()
+		if a(2)%2 == 0 && len(vals) >= 3 {
+			// the consensus keys under a threshold other than the operator's
+			var pubs []keypair.PublicKey
+			for _, x := range vals {
+				pubs = append(pubs, x.PublicKey)
+			}
+			m := len(vals) - (len(vals)-1)/3 - 1
+			tx = chain.MultiSignTx(tx, m, pubs, vals[:m]...)
+			ad, _ := types.AddressFromMultiPubKeys(pubs, m)
+			addrs = append(addrs, ad)
+			desc = fmt.Sprintf(" multisig(consensus keys, %d of %d instead of the operator threshold)", m, len(vals))
+		} else {
+			c.outsiders++
+			o := h.S.W.Account(fmt.Sprintf("outsider%d", c.outsiders))
+			pubs := []keypair.PublicKey{vals[int(a(1))%len(vals)].PublicKey, o.PublicKey}
+			tx = chain.MultiSignTx(tx, 1, pubs, o)
+			ad, _ := types.AddressFromMultiPubKeys(pubs, 1)
+			addrs = append(addrs, ad)
+			desc = " multisig(1 of validator+outsider, signed by the outsider)"
+		}
+		degen = "multisig_address_of_nobody"
 	case 0, 1:
 		user(a(1))
 	case 2:
@@ -525,6 +581,9 @@ func (c *c36) submit(st kernel.Step) bool {
 			allowed = true
 		}
 	}
+	if len(addrs) == 0 {
+		classes = " none"
+	}
 	sender := tc.NetSender
 	var ch chan *tc.TxResult
 	if a(4)%2 == 0 {
@@ -569,6 +628,22 @@ func (c *c36) submit(st kernel.Step) bool {
 	hs := sha256.Sum256([]byte(fmt.Sprintf("%x|%s|%v|%v", c.sig, classes, allowed, admitted)))
 	c.sig = hs[:]
 	run.State([]byte(fmt.Sprintf("%s|%v", classes, admitted)))
+	if degen != "" {
+		if admitted {
+			run.Probe("admitted_" + degen)
+		} else {
+			run.Probe("refused_" + degen)
+			if sender == tc.HttpSender {
+				run.Probe("refused_" + degen + "_http")
+			} else {
+				run.Probe("refused_" + degen + "_net")
+			}
+		}
+	}
+	if admitted && len(addrs) == 0 {
+		run.Fail("C36", "admitted-without-any-signer", "transaction with%s was admitted to the pool (sender %s): no signing address can be derived from it, so none is a registered relayer or a permitted consensus address", desc, sender.Sender())
+		return false
+	}
 	if admitted && !allowed {
 		run.Fail("C36", "admitted-without-permitted-signer", "transaction signed by%s (classes:%s) was admitted to the pool: none of its %d signing addresses is a relayer in committed state or a consensus address known at or before now", desc, classes, len(addrs))
 		return false
